@@ -102,6 +102,16 @@ def f_oddspace(rng, W, ctx):
     return frag('oddspace', s, a + b)
 
 
+def f_decomposed(rng, W, ctx):
+    """Letters written as base letter + combining mark (not NFC): any
+    normalisation of the text on its way would shift everything behind it."""
+    a, b = W.words(2), W.words(2)
+    if 'ж' not in W.vows_all:       # word set restricted to latin-1 files
+        return frag('decomposed', _sent(a + b) + '\n', a + b)
+    s = '%s Cafe\u0301 nai\u0308ve %s a\u030a %s %s.\n' % (a[0], a[1], b[0], b[1])
+    return frag('decomposed', s, a + b)
+
+
 def f_indent(rng, W, ctx):
     a, b = W.words(2), W.words(2)
     s = '   ' + _sent(a) + '\n\t' + _sent(b) + '\n'
@@ -409,7 +419,7 @@ def f_selectlanguage(rng, W, ctx):
 
 GENERATORS = {
     'plain': f_plain, 'longline': f_longline, 'indent': f_indent,
-    'twolines': f_twolines, 'oddspace': f_oddspace,
+    'twolines': f_twolines, 'oddspace': f_oddspace, 'decomposed': f_decomposed,
     'blank': f_blank, 'textbf': f_textbf, 'nested': f_nested,
     'unknown_macro': f_unknown_macro, 'group': f_group,
     'newcommand': f_newcommand, 'newcommand_opt': f_newcommand_opt,
